@@ -163,16 +163,12 @@ use {
             once,
             repeat_n,
         },
-        mem::{
-            ManuallyDrop,
-            MaybeUninit,
-        },
+        mem::ManuallyDrop,
         num::NonZero,
         ptr::read,
         sync::{
             Arc,
             Mutex,
-            Once,
         },
         thread::{
             self,
@@ -288,20 +284,6 @@ use {
 #[derive(Clone, Debug, Eq, Hash, Ord, PartialEq, PartialOrd)]
 pub struct AdjacencyMap {
     arcs: BTreeMap<usize, BTreeSet<usize>>,
-}
-
-#[allow(static_mut_refs)]
-fn empty_set() -> &'static BTreeSet<usize> {
-    static mut EMPTY: MaybeUninit<BTreeSet<usize>> = MaybeUninit::uninit();
-    static INIT: Once = Once::new();
-
-    unsafe {
-        INIT.call_once(|| {
-            let _ = EMPTY.write(BTreeSet::new());
-        });
-
-        EMPTY.assume_init_ref()
-    }
 }
 
 impl AddArc for AdjacencyMap {
@@ -877,24 +859,10 @@ impl IsSemicomplete for AdjacencyMap {
             return false;
         }
 
-        let mut out_neighbors = Vec::<&BTreeSet<_>>::with_capacity(order);
-
-        for u in self.vertices() {
-            out_neighbors
-                .push(self.arcs.get(&u).unwrap_or_else(|| empty_set()));
-        }
-
-        let ptr = out_neighbors.as_ptr();
-
-        unsafe {
-            for u in self.vertices() {
-                for v in self.vertices() {
-                    if u != v
-                        && !(*ptr.add(u)).contains(&v)
-                        && !(*ptr.add(v)).contains(&u)
-                    {
-                        return false;
-                    }
+        for (u, set_u) in &self.arcs {
+            for (v, set_v) in &self.arcs {
+                if u != v && !set_u.contains(v) && !set_v.contains(u) {
+                    return false;
                 }
             }
         }
@@ -926,24 +894,13 @@ impl IsTournament for AdjacencyMap {
             return false;
         }
 
-        let mut out_neighbors = Vec::<&BTreeSet<_>>::with_capacity(order);
+        for (u, set_u) in &self.arcs {
+            for (v, set_v) in &self.arcs {
+                let has_uv = set_u.contains(v);
+                let has_vu = set_v.contains(u);
 
-        for u in self.vertices() {
-            out_neighbors
-                .push(self.arcs.get(&u).unwrap_or_else(|| empty_set()));
-        }
-
-        let ptr = out_neighbors.as_ptr();
-
-        unsafe {
-            for u in self.vertices() {
-                for v in self.vertices() {
-                    if u != v
-                        && (*ptr.add(u)).contains(&v)
-                            == (*ptr.add(v)).contains(&u)
-                    {
-                        return false;
-                    }
+                if u != v && has_uv == has_vu {
+                    return false;
                 }
             }
         }
